@@ -50,15 +50,16 @@ A3 = Array('A3', I, B)      # third assignment term
 AN = Array('AN', Name, B)   # the arbitrary assignment over variable *names*
 Q = Array('Q', I, B)        # quantified level set of family QE
 HL = Int('HL')              # level parameter of family HASLVL
+RT = Int('RT')              # target node of family REACH (rt[x]: node RT is reachable from node x, reflexive)
 
 # node-indexed fields: name -> (domain, range)
 NODE_FIELDS = dict(dom=(I, B), lvl=(I, I), lo=(I, I), hi=(I, I), ref=(I, I), indeg=(I, I), ext=(I, I),
-                   sem=(I, B), sem2=(I, B), sem3=(I, B), sem1=(I, B), qex=(I, B), qfa=(I, B), hl=(I, B))
+                   sem=(I, B), sem2=(I, B), sem3=(I, B), sem1=(I, B), qex=(I, B), qfa=(I, B), hl=(I, B), rt=(I, B))
 TABLE_FIELDS = dict(ph=(Fork, B), pv=(Fork, I), ch=(Fork, B), cv=(Fork, I))
 ORDER_FIELDS = dict(vin=(Name, B), v2l=(Name, I), lin=(I, B), l2v=(I, Name))
 FIELDS = dict(**NODE_FIELDS, **TABLE_FIELDS, **ORDER_FIELDS)
 SCALARS = dict(minfree=I, nvars=I, lastlen=I, ctx=B, maxnodes=I, nsucc=I)
-GHOST_NODE = ['sem', 'sem2', 'sem3', 'sem1', 'qex', 'qfa', 'hl', 'indeg', 'ext']
+GHOST_NODE = ['sem', 'sem2', 'sem3', 'sem1', 'qex', 'qfa', 'hl', 'rt', 'indeg', 'ext']
 ALLF = list(FIELDS) + list(SCALARS)
 
 
@@ -176,6 +177,8 @@ def WF(S, uses=None):
         c['HASLVL-def'] = And(Not(S.hl[1]), node(lambda x: S.hl[x] == Or(S.lvl[x] == HL, S.hl[absz(S.lo[x])], S.hl[S.hi[x]])))
         c['HASLVL-above'] = ForAll([u], Implies(And(S.dom[u], S.lvl[u] > HL), Not(S.hl[u])), patterns=[S.dom[u]])
         c['HASLVL-range'] = ForAll([u], Implies(And(S.dom[u], S.hl[u]), And(0 <= HL, HL < S.nvars)), patterns=[S.dom[u]])
+    if allf or 'rt' in uses:
+        c['REACH-def'] = And(S.rt[1] == (RT == 1), node(lambda x: S.rt[x] == Or(x == RT, S.rt[absz(S.lo[x])], S.rt[S.hi[x]])))
     if allf or 'order' in uses:
         c['W8-vars-to-levels'] = ForAll([n], Implies(S.vin[n], And(0 <= S.v2l[n], S.v2l[n] < S.nvars, S.lin[S.v2l[n]],
                                                                    S.l2v[S.v2l[n]] == n)), patterns=[S.vin[n]])
@@ -200,6 +203,8 @@ def ghost_fields(uses):
         out += ['qex', 'qfa']
     if 'hl' in uses:
         out.append('hl')
+    if 'rt' in uses:
+        out.append('rt')
     if 'rc' in uses:
         out.append('ext')
     return out
@@ -209,7 +214,7 @@ def Ext(a, b, uses=None):
     """b extends a: every node of a is in b unchanged (shape, denotations, external count); new nodes ext = 0."""
     u = _u
     fields = ['lvl', 'lo', 'hi'] + (ghost_fields(uses) if uses is not None else
-                                    ['sem', 'sem2', 'sem3', 'sem1', 'qex', 'qfa', 'hl', 'ext'])
+                                    ['sem', 'sem2', 'sem3', 'sem1', 'qex', 'qfa', 'hl', 'rt', 'ext'])
     same = [getattr(b, f)[u] == getattr(a, f)[u] for f in fields if getattr(b, f) is not getattr(a, f)]
     cl = [b.nvars == a.nvars]
     if b.dom is not a.dom or same:
@@ -225,5 +230,5 @@ def keep(a, b, fields=None):
     return And(*[BoolVal(True) if getattr(b, f) is getattr(a, f) else getattr(b, f) == getattr(a, f) for f in fs])
 
 
-NODE_MOD = ['dom', 'lvl', 'lo', 'hi', 'ref', 'indeg', 'ext', 'sem', 'sem2', 'sem3', 'sem1', 'qex', 'qfa', 'hl',
+NODE_MOD = ['dom', 'lvl', 'lo', 'hi', 'ref', 'indeg', 'ext', 'sem', 'sem2', 'sem3', 'sem1', 'qex', 'qfa', 'hl', 'rt',
             'ph', 'pv', 'minfree', 'nsucc']
